@@ -133,3 +133,163 @@ theorem parseCidrS_accepts (s : Str) (h : CidrWF4 s) (infer : Bool) : ∃ r, par
     exact ⟨_, rfl⟩
 
 end Pox.Addr
+
+namespace Pox.Addr
+
+/-! ### exact results on well-formed text, for every flag value -/
+
+/-- what `addr/len` gives, `len` the value of any string of decimal digits (leading zeros allowed: `"/08"`) -/
+def cidrLenResult (w : Nat) {α : Type} (x : α) (num len : Nat) (allowHost : Bool) : Except Err (α × Nat) :=
+  if len > w then .error .assertion
+  else if !allowHost && decide (num % 2 ^ (w - len) ≠ 0) then .error .runtime
+  else .ok (x, len)
+
+theorem cidrLen_eq (b0 b1 b2 b3 : UInt8) (len : Nat) (allowHost : Bool) :
+    cidrLen (dotted [b0, b1, b2, b3]) (len : Int) allowHost =
+      cidrLenResult 32 (ip4OfBytes b0 b1 b2 b3) (beDec [b0, b1, b2, b3]) len allowHost := by
+  unfold cidrLen cidrLenResult
+  simp only
+  by_cases hl : len > 32
+  · rw [if_pos hl, if_pos (by omega)]
+  · rw [if_neg hl, if_neg (by omega), ip4OfBytes_text, ok_bind]
+    have hw : ((32 : Int) - (len : Int)).toNat = 32 - len := by omega
+    rw [hw, cidrCheck_eq, ip4OfBytes_host]
+    by_cases hc : (!allowHost && decide (beDec [b0, b1, b2, b3] % 2 ^ (32 - len) ≠ 0)) = true
+    · rw [if_pos hc, if_pos hc]; rfl
+    · rw [if_neg hc, if_neg hc, ok_bind]
+      have : 32 - (32 - len) = len := by omega
+      rw [this]; rfl
+
+theorem parseCidr_prefixD (b0 b1 b2 b3 : UInt8) (D : Str) (hd : isDecStr D = true) (infer allowHost : Bool) :
+    parseCidr (dotted [b0, b1, b2, b3] ++ '/' :: D) infer allowHost =
+      cidrLenResult 32 (ip4OfBytes b0 b1 b2 b3) (beDec [b0, b1, b2, b3]) (foldDig 10 0 D) allowHost := by
+  obtain ⟨hne, hdig⟩ := isDecStr_spec D hd
+  unfold parseCidr
+  rw [splitOnN_two _ _ (dotted_no_slash _) (dec_no_slash D hdig)]
+  simp only
+  rw [pyInt_dig 10 (by decide) D hdig hne]
+  exact cidrLen_eq b0 b1 b2 b3 _ allowHost
+
+theorem parseCidrS_prefixD (b0 b1 b2 b3 : UInt8) (D : Str) (hd : isDecStr D = true) (infer allowHost : Bool) :
+    parseCidrS (dotted [b0, b1, b2, b3] ++ '/' :: D) infer allowHost =
+      cidrLenResult 32 (ip4OfBytes b0 b1 b2 b3) (beDec [b0, b1, b2, b3]) (foldDig 10 0 D) allowHost := by
+  obtain ⟨hne, hdig⟩ := isDecStr_spec D hd
+  unfold parseCidrS
+  rw [splitOn_two _ _ (dotted_no_slash _) (dec_no_slash D hdig)]
+  simp only [hd, if_true]
+  rw [pyInt_dig 10 (by decide) D hdig hne]
+  exact cidrLen_eq b0 b1 b2 b3 _ allowHost
+
+theorem parseCidrS_netmask (b0 b1 b2 b3 m0 m1 m2 m3 : UInt8) (len : Nat) (hlen : len ≤ 32)
+    (hm : beDec [m0, m1, m2, m3] = 2 ^ 32 - 2 ^ (32 - len)) (infer allowHost : Bool) :
+    parseCidrS (dotted [b0, b1, b2, b3] ++ '/' :: dotted [m0, m1, m2, m3]) infer allowHost =
+      cidrLenResult 32 (ip4OfBytes b0 b1 b2 b3) (beDec [b0, b1, b2, b3]) len allowHost := by
+  rw [parseCidrS_eq _ (.mask b0 b1 b2 b3 m0 m1 m2 m3 len rfl hlen hm), parseCidr_netmask b0 b1 b2 b3 m0 m1 m2 m3 len hlen hm]
+  unfold cidrLenResult
+  rw [if_neg (show ¬ len > 32 by omega)]
+
+theorem parseCidrS_plain (b0 b1 b2 b3 : UInt8) (infer allowHost : Bool) :
+    parseCidrS (dotted [b0, b1, b2, b3]) infer allowHost = parseCidr (dotted [b0, b1, b2, b3]) infer allowHost :=
+  parseCidrS_eq _ (.plain b0 b1 b2 b3 rfl) infer allowHost
+
+/-! ### `get_network` and `inNetwork("net/len")` -/
+
+theorem and_shift (k t m r : Nat) (hr : r < 2 ^ k) : (2 ^ k * t + r) &&& (2 ^ k * m) = 2 ^ k * (t &&& m) := by
+  apply Nat.eq_of_testBit_eq
+  intro j
+  rw [Nat.testBit_and, Nat.testBit_two_pow_mul_add t hr j, Nat.testBit_two_pow_mul, Nat.testBit_two_pow_mul, Nat.testBit_and]
+  by_cases hj : j < k
+  · have : ¬ j ≥ k := by omega
+    simp [hj, this]
+  · have : j ≥ k := by omega
+    simp [hj, this]
+
+/-- `h & netmask(len)` clears the host bits -/
+theorem and_mask (h len : Nat) (hh : h < 2 ^ 32) (hl : len ≤ 32) : h &&& (2 ^ 32 - 2 ^ (32 - len)) = h - h % 2 ^ (32 - len) := by
+  have hd : h = 2 ^ (32 - len) * (h / 2 ^ (32 - len)) + h % 2 ^ (32 - len) := (Nat.div_add_mod h _).symm
+  have hr : h % 2 ^ (32 - len) < 2 ^ (32 - len) := Nat.mod_lt _ (Nat.pow_pos (by decide))
+  have hsplit : 2 ^ 32 = 2 ^ (32 - len) * 2 ^ len := by rw [← Nat.pow_add]; congr 1; omega
+  have hm : 2 ^ 32 - 2 ^ (32 - len) = 2 ^ (32 - len) * (2 ^ len - 1) := by
+    rw [Nat.mul_sub, Nat.mul_one, ← hsplit]
+  have hq : h / 2 ^ (32 - len) < 2 ^ len := by
+    rw [Nat.div_lt_iff_lt_mul (Nat.pow_pos (by decide)), Nat.mul_comm, ← hsplit]; exact hh
+  conv => lhs; rw [hd, hm]
+  rw [and_shift _ _ _ _ hr, Nat.and_two_pow_sub_one_eq_mod, Nat.mod_eq_of_lt hq]
+  omega
+
+theorem mask_inverse_aux (b : Nat) (hb : b ≤ 32) :
+    ∃ m, cidrToNetmask b = .ok m ∧ m.Valid ∧ m.toUnsigned false = 2 ^ 32 - 2 ^ (32 - b) ∧ netmaskToCidr m = .ok b := by
+  have hlt := mask_lt 32 b
+  refine ⟨IP4.ofInt ((2 ^ 32 - 2 ^ (32 - b) : Nat) : Int) false, ?_, IP4.ofInt_valid _ _, IP4.toUnsigned_ofInt _ hlt false, ?_⟩
+  · unfold cidrToNetmask; rw [cidrMaskN_eq 32 b hb]; rfl
+  · unfold netmaskToCidr
+    rw [IP4.toUnsigned_ofInt _ hlt false]
+    exact (netmaskToCidrN_spec 32 (by decide) _ hlt b).mpr ⟨hb, rfl⟩
+
+theorem quad255 : "255.255.255.255/".toList = dotted [255, 255, 255, 255] ++ ['/'] := by decide
+
+/-- `x.get_network(len)` for `len` given as decimal digits: the address with its host bits cleared, and `len` -/
+theorem getNetwork_spec (pc : Str → Bool → Bool → Except Err (IP4 × Nat)) (a : IP4) (D : Str) (len : Nat) (hl : len ≤ 32)
+    (hpc : ∀ x, pc (dotted [255, 255, 255, 255] ++ '/' :: D) true true = .ok x → x.2 = len)
+    (hok : ∃ x, pc (dotted [255, 255, 255, 255] ++ '/' :: D) true true = .ok x) :
+    ∃ y, getNetworkWith pc a D = .ok (y, len) ∧ y.Valid ∧
+      y.toUnsigned false = a.toUnsigned false - a.toUnsigned false % 2 ^ (32 - len) := by
+  obtain ⟨x, hx⟩ := hok
+  have hxl := hpc x hx
+  obtain ⟨m, hm, _, hmu, _⟩ := mask_inverse_aux len hl
+  have hh := IP4.toUnsigned_lt a false
+  have hval : a.toUnsigned false &&& m.toUnsigned false = a.toUnsigned false - a.toUnsigned false % 2 ^ (32 - len) := by
+    rw [hmu]; exact and_mask _ len hh hl
+  refine ⟨IP4.ofInt ((a.toUnsigned false &&& m.toUnsigned false : Nat) : Int) false, ?_, IP4.ofInt_valid _ _, ?_⟩
+  · unfold getNetworkWith
+    have e : "255.255.255.255/".toList ++ D = dotted [255, 255, 255, 255] ++ '/' :: D := by rw [quad255]; simp
+    rw [e, hx]
+    obtain ⟨x1, x2⟩ := x
+    simp only at hxl
+    subst hxl
+    simp only [bind, Except.bind, hm, pure, Except.pure]
+  · rw [IP4.toUnsigned_ofInt _ (by rw [hval]; omega) false, hval]
+
+end Pox.Addr
+
+namespace Pox.Addr
+
+theorem inNetworkN_bool (w a n b : Nat) (hb : b ≤ w) (hn : n % 2 ^ (w - b) = 0) :
+    inNetworkN w a n b = .ok (decide (a / 2 ^ (w - b) = n / 2 ^ (w - b))) := by
+  obtain ⟨r, hr⟩ := inNetworkN_total w a n b hb
+  have hi := inNetworkN_iff w a n b hb
+  rw [hr]
+  congr 1
+  cases r with
+  | true => have := hi.mp hr; simp [this.1]
+  | false =>
+    by_cases he : a / 2 ^ (w - b) = n / 2 ^ (w - b)
+    · have := hi.mpr ⟨he, hn⟩
+      rw [hr] at this; cases this
+    · simp [he]
+
+/-- the answer of `a.inNetwork("n/len")`: the text is refused when `len > 32` (AssertionError) or `n` has host bits
+    (RuntimeError); otherwise membership is equality of the top `len` bits -/
+def inNetResult (w num_a num_n len : Nat) : Except Err Bool :=
+  if len > w then .error .assertion
+  else if num_n % 2 ^ (w - len) ≠ 0 then .error .runtime
+  else .ok (decide (num_a / 2 ^ (w - len) = num_n / 2 ^ (w - len)))
+
+theorem inNetworkText_spec (pc : Str → Bool → Bool → Except Err (IP4 × Nat)) (a : IP4) (net : Str) (b0 b1 b2 b3 : UInt8) (len : Nat)
+    (hpc : pc net true false = cidrLenResult 32 (ip4OfBytes b0 b1 b2 b3) (beDec [b0, b1, b2, b3]) len false) :
+    inNetworkTextWith pc a net = inNetResult 32 (a.toUnsigned false) (beDec [b0, b1, b2, b3]) len := by
+  unfold inNetworkTextWith inNetResult
+  rw [hpc]
+  unfold cidrLenResult
+  by_cases hl : len > 32
+  · rw [if_pos hl, if_pos hl]; rfl
+  · rw [if_neg hl, if_neg hl]
+    by_cases hh : beDec [b0, b1, b2, b3] % 2 ^ (32 - len) ≠ 0
+    · rw [if_pos (by simp [hh]), if_pos hh]; rfl
+    · rw [if_neg (by simp [hh]), if_neg hh, ok_bind]
+      unfold inNetwork
+      dsimp only
+      rw [ip4OfBytes_host]
+      exact inNetworkN_bool 32 _ _ len (by omega) (by omega)
+
+end Pox.Addr
